@@ -13,7 +13,8 @@ Record eds_snapshot := MkEdsSnap {
   es_fail_update : bool;               (* the spec/annotation write is rejected *)
   es_fail_rs_delete : list name;       (* replica sets whose deletion is rejected *)
   es_fail_rs_create : bool;            (* the replica-set creation is rejected *)
-  es_fail_list_rs : bool               (* the List of the replica sets fails *)
+  es_fail_list_rs : bool;              (* the List of the replica sets fails *)
+  es_fail_list_cluster : bool          (* the List of the pods or of the nodes inside [selectNodes] fails *)
 }.
 
 (** The new replica set sent to the API (GenerateName = <eds name>-). *)
@@ -122,6 +123,12 @@ Definition canary_candidate_nodes (c : canary_spec) : list node :=
 Definition eds_pods (e : eds) : list pod :=
   filter (fun p => N.eqb (p_ns p) (e_ns e) && p_has_eds_label p (e_name e)) (es_pods sn).
 
+(** [selectNodes] as the reconcile runs it: when the List of the pods or of the nodes fails it returns the error before
+    it touches the list - which then stays as it was, and the reconcile reports the error after the status write. *)
+Definition select_or_fail (t : tmpl) (keys : list name) (nb : Z) (nodes : list node) (pods : list pod)
+           (previous : list name) : list name * bool :=
+  if es_fail_list_cluster sn then (previous, false) else select_nodes t keys nb nodes pods previous.
+
 (** [updateInstanceWithCurrentRS].  Errors: 51 canary replicas do not resolve (returns before any write);
     not enough canary nodes: the shortened list is written with the status and the error is reported. Panic 50: nil canary sub-structure. *)
 Definition update_instance (e : eds) (current uptodate : ers) (sum_cur sum_rdy sum_av : Z) : outcome eds_plan :=
@@ -148,8 +155,8 @@ Definition update_instance (e : eds) (current uptodate : ers) (sum_cur sum_rdy s
                 let previous := match es_canary st3 with Some cs => cs_nodes cs | None => [] end in
                 if nb =? zlen previous then finish_update e st3 tmpl_hash' ann failed
                 else
-                  let '(sel, enough) := select_nodes (r_tmpl uptodate) (ca_antiaffinity c) nb
-                                                     (canary_candidate_nodes c) (eds_pods e) previous in
+                  let '(sel, enough) := select_or_fail (r_tmpl uptodate) (ca_antiaffinity c) nb
+                                                       (canary_candidate_nodes c) (eds_pods e) previous in
                   if enough then finish_update e (with_canary_nodes st3 sel) tmpl_hash' ann failed
                   else with_error (finish_update e (with_canary_nodes st3 sel) tmpl_hash' ann failed)
             end
